@@ -112,7 +112,7 @@ Print Assumptions C11_W_TextSpacingPoint.
 
 (** xsd:double classes.  PARTIAL: str(float) is not modelled digit by digit, so the statement
     is: what is written is the repr of float(value) and that float is finite (python would
-    print inf / nan otherwise, which xsd:double does not admit in that spelling).  Missing:
+    print inf / nan otherwise, spellings xsd:double does not have).  Missing:
     python repr of a finite binary64 is a valid xsd:double literal (trusted base; compared
     through float(text) by the correspondence). *)
 Theorem C11_W_XsdDouble_partial : forall v s,
